@@ -31,6 +31,18 @@ def start_states(kind):
     return out
 
 
+def scripted_prefixes(kind):
+    out = []
+    if kind in ("SMG", "SCRG"):
+        d = ("PlanarBond", (0, None, 1, 2, 3, None), 0)
+        out.append([("add_bond", 1, 2, {}), ("set_bond_stereo", d), ("remove_bond", 1, 2)])
+        out.append([("add_bond", 1, 2, {}), ("set_bond_stereo", d), ("remove_bond", 1, 2), ("add_bond", 1, 2, {})])
+    if kind == "SCRG":
+        d2 = ("PlanarBond", (0, None, 1, 3, 2, None), 0)
+        out.append([("add_bond", 1, 3, {}), ("set_bond_stereo_change", {"formed": d2}), ("remove_bond", 1, 3)])
+    return out
+
+
 def replay_history(kind, start_code_ref: Ref, ops, final_check):
     """used by replay scripts: returns True when the property holds on this history"""
     g = build_real(start_code_ref)
@@ -160,6 +172,11 @@ def run_histories(rep, prop, tier, seed, clauses, with_queries):
                 if d < depth and len(nxt) > (12 if tier == "quick" else 400):
                     nxt = rng.sample(nxt, 12 if tier == "quick" else 400)
                 frontier = nxt
+            # scripted prefixes: states the random part reaches only by luck (the bond pulled from under a descriptor / stereo change)
+            for hist in scripted_prefixes(kind):
+                r = sref.copy()
+                if all(apply_ref(r, op) == "ok" for op in hist):
+                    visit(sref, tuple(hist))
             # random walks
             for w in range(n_walks):
                 hist = ()
